@@ -5,7 +5,7 @@
 From stdpp Require Import gmap list.
 From Coq Require Import NArith.
 From RopeVerif.Lib Require Import Text.
-From RopeVerif.C10 Require Import FsModel Change.
+From RopeVerif.C10 Require Import FsModel Change Static Observer.
 
 Definition opt_eqb {A} (eqb : A -> A -> bool) (a b : option A) : bool :=
   match a, b with Some x, Some y => eqb x y | None, None => true | _, _ => false end.
@@ -134,3 +134,70 @@ Definition v_ft : variant := as_found.              (* forward rollback, finish 
 Definition v_ff : variant := Variant false false.   (* forward rollback, no finish check *)
 Definition v_tt : variant := Variant true true.     (* reversed rollback, finish check *)
 Definition v_tf : variant := repaired.              (* reversed rollback, no finish check *)
+
+(* ---------------------------------------------------------------- static certificate (Static.v) *)
+(* 1 = the change about to be done / undone / redone is certified by the static scan on the tree
+   before the call *)
+Definition static1 (c : case) : N :=
+  let m0 : fs := list_to_map (c_tree c) in
+  let lastof (l : list change) := match l with [] => None | c0 :: rest => Some (List.last rest c0) end in
+  if N.eqb (c_op c) 0 then bit (reversible_cs fuel m0 (c_change c)) 1
+  else if N.eqb (c_op c) 1
+       then match lastof (c_undo c) with Some ch => bit (reversible_undo fuel m0 ch) 1 | None => 0%N end
+       else match lastof (c_redo c) with Some ch => bit (reversible_cs fuel m0 ch) 1 | None => 0%N end.
+
+Definition sreport (cs : list case) : list N := map static1 cs.
+
+(* ------------------------------------------------- extended schedule (Observer.v): observer
+   failures and truncating writes.  Same report word as [report1]; exception class 9 = the observer
+   callback raised. *)
+Fixpoint oeflat (x : oerr) : list N :=
+  match x with
+  | OE c => [ecode c]
+  | OW c => [20%N; ecode c]
+  | OObs => [9%N]
+  | ODuring y x => oeflat y ++ oeflat x
+  end.
+
+Record ocase := {
+  oc_base : case;
+  oc_obs : option nat;        (* index of the observer notification that raises *)
+  oc_atomic : bool            (* false: the injected fault of a write hits after the truncation *)
+}.
+
+Definition oexec (v : variant) (oc : ocase) : ohres :=
+  let c := oc_base oc in
+  let s := Hist (list_to_map (c_tree c)) (c_undo c) (c_redo c) (c_limit c) in
+  let k := OS (Sched (match c_flt c with Some n => Some n | None => Some big end) (c_stp c) false false)
+              (oc_obs oc) (oc_atomic oc) in
+  if N.eqb (c_op c) 0 then ohistory_do v fuel (c_change c) s k
+  else if N.eqb (c_op c) 1 then ohistory_undo v fuel s k
+  else ohistory_redo v fuel s k.
+
+Definition oreport1 (v : variant) (oc : ocase) : N :=
+  let c := oc_base oc in
+  let m0 : fs := list_to_map (c_tree c) in
+  let r := oexec v oc in
+  let '(raised, s', k', chain, x) :=
+    match r with
+    | OHOk s' k' => (false, s', k', [], None)
+    | OHErr s' k' x => (true, s', k', squash (oeflat x), Some x)
+    end in
+  let same := tree_eqb (h_fs s') (c_tree c) && changes_eqb (h_undo s') (c_undo c)
+              && changes_eqb (h_redo s') (c_redo c) in
+  let art := existsb (fun c => N.eqb c 30 || N.eqb c 31) chain in
+  let calls := match flt (ok k') with Some r => big - r | None => 0 end in
+  (bit (negb (Bool.eqb raised (o_raised c) && text_eqb chain (squash (o_err c)))) 1
+   + bit (negb (tree_eqb (h_fs s') (o_tree c))) 2
+   + bit (negb (changes_eqb (h_undo s') (o_undo c))) 4
+   + bit (negb (changes_eqb (h_redo s') (o_redo c))) 8
+   + bit (match c_flt c with None => negb (Nat.eqb calls (o_calls c)) | Some _ => false end) 16
+   + bit (match o_irrev c with Some b => negb (Bool.eqb b (irrev (ok k'))) | None => false end) 32
+   + bit raised 64
+   + bit same 128
+   + bit (irrev (ok k')) 256
+   + bit (match x with Some x => oclean x | None => true end) 1024
+   + bit art 2048
+   + bit (wf_fsb m0) 4096)%N.
+
+Definition oreport (v : variant) (cs : list ocase) : list N := map (oreport1 v) cs.
